@@ -28,3 +28,7 @@ CHECKS['C03'] = ('model_checking',
     'reference-model conformance by bounded exhaustive enumeration: 18 left-recursion templates x every assignment of rule names to the cycle rules x entry through every cycle rule x all token strings up to length 5 (quick) / 7 (thorough), anchored and prefix parses; termination and model==generated for all, equality with the reference seed-growing evaluator and the left-fold closed form for single-head cycles, rename-invariance of accept/reject for mutual cycles',
     'trusted: the reference evaluator (dynamic-head seed growing); watchdog 10 s + interpreter recursion limit stand for "terminates"',
     'explicit enumeration of programs x inputs against a reference model, every model trace replayed on the implementation')
+CHECKS['C19'] = ('model_checking',
+    'codec: exhaustive enumeration of all strings up to length 4/5 over the 12 characters the encoding itself uses, in 5 payload positions, through pack/unpack and the run-length layer; queue: stateless exploration of the real PacketzQueue on real files — every interleaving of sends and receives by 1-2 readers with the file cut at every byte offset of the last record, full choice tree for small configurations and deviation-bounded for larger, invariant checked after every receive',
+    'trusted: prefix-of-file model of a concurrent reader; ids distinct (clock seam); exceptions from a truncated read tolerated when nothing is lost or repeated',
+    'stateless model checking of send/receive/truncation schedules + exhaustive input enumeration for the codec')
